@@ -4,6 +4,33 @@ _SUFFIX = (' Decides the structural necessary condition(s) named, on every path 
            'current source; does not decide the run-time behaviour itself.')
 
 CLAIMED = {
+    'C01': {
+        'text': 'Three necessary conditions of the notebook round trip: R01.1 every op emitted at the (enumerated) builder call sites '
+                'below diff_notebooks, by container kind of the builder, has a non-raising arm in patch_list/patch_dict/flatten/'
+                'count_consumed_symbols; R01.2 nbpatch patches with to_diffentry_dicts(json.load(file)) (recursive for dicts and '
+                'lists), nbdiff dumps the very diff object it computed from (base, remote); R01.3 no site on the notebook path '
+                'concludes "unchanged" from type-blind equality.' + _SUFFIX,
+        'note': 'Exact equality of patch(A, diff(A,B)) with B over all notebook pairs (LCS/snake arithmetic, heuristics) is not decided.',
+        'technique': 'static analysis: emit-site/consumer-arm table agreement + def-use of the file interface',
+    },
+    'C02': {
+        'text': 'R02.1 every comparison of values of the two documents that decides "unchanged" is str-guarded / schema-exact, no '
+                'predicate table defaults to bare operator.__eq__, and equality helpers conjoin a number-type test; R02.2 builder '
+                'ops = schema oneOf = documented ops and consumers have an arm per op; R02.3 all generic producers return builder '
+                'results; R02.4 the three sibling gap emitters keep one cursor discipline (same key, length = next - key, slice '
+                'of the second sequence).' + _SUFFIX,
+        'note': 'LCS optimality, difflib behaviour and string flattening arithmetic are not decided.',
+        'technique': 'static analysis: equality-site classification (guard dominance) + sibling cross-check of emitters',
+    },
+    'C04': {
+        'text': 'R04.1 every value the merge code constructs and stores under a notebook field (similar-insert cell fields, cleared '
+                'values, marker outputs, conflict records) has a syntactic JSON kind the nbformat schema admits at that path, for '
+                'all minors where relevant; R04.2 cells made by nbformat constructors (which always add an id, fact read from the '
+                'installed source) are stripped of the id under a flag that every caller derives from "some cell has an id"; '
+                'R04.3 the result passes nbformat.from_dict on the only exit.' + _SUFFIX,
+        'note': 'Validity of a concrete merged notebook (values coming from inputs) is run-time data and not decided.',
+        'technique': 'static analysis: construction-site kind inference checked against JSON schemas read as data',
+    },
     'C13': {
         'text': 'R13.1 alias/effect analysis: for every document parameter of the public API (diff, diff_notebooks, patch*, '
                 'decide_merge*, merge_notebooks, apply_decisions, pretty_print_*) no store/del/augmented-assign/mutator reaches an '
